@@ -71,6 +71,15 @@ theorem sound_aux (allowed : List Nat) :
     | alloc d dt =>
       simp only [safeFrom] at hs
       exact ih _ (step st (.alloc d dt)) hs (absOK_upd_fresh ha d _ _) hw he
+    | retype x dt =>
+      simp only [safeFrom] at hs
+      refine ih a (step st (.retype x dt)) hs ?_ hw he
+      intro y
+      by_cases hy : y = x
+      · have := ha x
+        simpa [step, upd, hy] using this
+      · have := ha y
+        simpa [step, upd, hy] using this
     | view d src c =>
       simp only [safeFrom] at hs
       by_cases hc : c.sat (st.env src).kind = true
@@ -200,6 +209,7 @@ theorem mstep_frame {α} (sem : Sem α) (ms : MState α) (s : Stmt) (b : Buf) :
     · by_cases hb : b = .fresh ms.st.next
       · right; left; exact hb
       · left; simp [memSet, hb]
+  | retype x dt => left; rfl
   | pywrite x =>
     by_cases hb : b = (ms.st.env x).buf
     · right; right; simp [step, hb]
@@ -380,6 +390,21 @@ theorem rel_step {α} (sem : Sem α) {δ n0 : Nat} {m1 m2 : MState α} (h : Rel 
       simp only [mstep, step, hc, hc2]
       rw [hk]
       exact rel_alloc h d _ _ _ (by rw [hm])
+  | retype x dt =>
+    simp only [mstep, step]
+    refine ⟨h.next, h.base, ?_, ?_, ?_, h.events, h.written, h.mem⟩
+    · intro y
+      by_cases hy : y = x
+      · simpa [upd, hy] using h.envBuf x
+      · simpa [upd, hy] using h.envBuf y
+    · intro y
+      by_cases hy : y = x
+      · simp [upd, hy]
+      · simpa [upd, hy] using h.envKind y
+    · intro y
+      by_cases hy : y = x
+      · simpa [upd, hy] using h.valid x
+      · simpa [upd, hy] using h.valid y
   | pywrite x =>
     have hm : m2.mem (m2.st.env x).buf = m1.mem (m1.st.env x).buf := by
       rw [h.envBuf x]; exact h.mem _ (h.valid x)
